@@ -68,6 +68,11 @@ class Check(PropertyCheck):
         jobs = []
         for i, p in enumerate(plains):
             jobs.append((["-%d" % rng.choice([1, 1, 2, 9]), "-n%d" % rng.choice([1, 2, 4, 8])] + (["-u"] if i % 3 == 0 else []), p, None, "compress"))
+        # scheduler arrays of the compressor: a slow first block followed by many fast ones fills reord_q (2*workers+1 blocks waiting)
+        slowfast = bytes(rng.below(256) for _ in range(100000)) + b"\0" * (100000 * (8 if quick else 20))
+        for n in (2, 3, 4) if quick else (2, 3, 4, 6, 8):
+            for rep in range(2):
+                jobs.append((["-1", "-n%d" % n], slowfast, None, "compress:slow-first-block"))
         for i, (f, t) in enumerate(files):
             g = declib.GRANULES[i % len(declib.GRANULES)]
             jobs.append((["-d", "-n%d" % rng.choice([1, 2, 4, 8])], f, g, "decompress:" + t))
